@@ -41,7 +41,7 @@ func runC13(c *Ctx) {
 			if call, ok := unparen(e).(*ast.CallExpr); ok {
 				if sel, ok := unparen(call.Fun).(*ast.SelectorExpr); ok {
 					// Matcher.String() quotes its value; MatchType.String() is an enum
-					return "", classOfStringer(sel.X, text)
+					return "", classOfStringer(p, sel.X, text)
 				}
 			}
 		case strings.HasSuffix(text, ".Verb") || strings.HasPrefix(text, "string(ck.Verb"):
@@ -101,16 +101,15 @@ func runC13(c *Ctx) {
 				report(rel+".CacheKey.String#"+kind, p.Pos(ret.Pos()), ts, x.errs)
 				prefixes = append(prefixes, leadingLiteral(ts))
 				// field coverage: block, the key payload and (for compressed kinds) the compression scheme
-				names := map[string]bool{}
-				atomNames(ts, names)
 				hasBlock, hasKey, hasComp := false, false, false
-				for n := range names {
+				for _, a := range atomList(ts) {
+					n := a.Raw
 					switch {
 					case strings.HasSuffix(n, ".Block"):
 						hasBlock = true
 					case strings.HasSuffix(n, ".Compression"):
 						hasComp = true
-					case strings.Contains(n, ".Key.(") || strings.HasPrefix(n, "lbl.") || strings.HasPrefix(n, "matchers"):
+					case strings.Contains(n, ".Key.(") || mentionsKeyPayload(fn, a):
 						hasKey = true
 					}
 				}
@@ -264,11 +263,36 @@ func runC13(c *Ctx) {
 
 // classOfStringer: format class of X.String() by the static type name of X (text heuristics on
 // the printed expression are avoided: the decision uses the method's receiver type).
-func classOfStringer(recv ast.Expr, text string) string {
-	t := exprString(recv)
-	switch {
-	case strings.HasSuffix(text, "lbl.String()") || strings.Contains(strings.ToLower(t), "matcher") || t == "lbl" || t == "m":
-		return "quoted"
+func classOfStringer(p *Prog, recv ast.Expr, text string) string {
+	// labels.Matcher.String() quotes its value
+	for _, pk := range p.Roots {
+		if tv, ok := pk.TypesInfo.Types[recv]; ok && strings.HasSuffix(strings.TrimPrefix(shortType(tv.Type), "*"), "labels.Matcher") {
+			return "quoted"
+		}
 	}
 	return "free"
+}
+
+// mentionsKeyPayload: the atom's expression mentions a local that was bound to the key payload
+// (`x := c.Key.(CacheKeyPostings)`).
+func mentionsKeyPayload(fn *Fn, a fT) bool {
+	if a.Src == nil || a.Info == nil {
+		return false
+	}
+	found := false
+	ast.Inspect(a.Src, func(n ast.Node) bool {
+		id, ok := n.(*ast.Ident)
+		if !ok || found {
+			return true
+		}
+		o := objOf(a.Info, id)
+		if o == nil {
+			return true
+		}
+		if d := singleDef(fn, a.Info, o); d != nil && strings.Contains(canon(d), ".Key.(") {
+			found = true
+		}
+		return true
+	})
+	return found
 }
